@@ -80,10 +80,14 @@ def _scratch(name):
         las.well["WELL"].value = np.nan
         las.well["FLD"].unit = "x"
         las.well["FLD"].value = np.nan
+    if name.startswith("dup-"):
+        # n items sharing one mnemonic (session names AMP:1 .. AMP:n, suffixes of one, two and three digits)
+        for k in range(int(name[4:])):
+            las.params.append(lasio.HeaderItem("AMP", "mV", k, "amplitude %d" % k))
     return las
 
 
-SCRATCH = ["default", "curves", "nan-header"]
+SCRATCH = ["default", "curves", "nan-header", "dup-9", "dup-10", "dup-11", "dup-99", "dup-100", "dup-101", "dup-130"]
 
 
 def full_tag(las):
@@ -201,6 +205,26 @@ def check_las(make, label, pt):
                     if full_tag(other) != ref:
                         vio.append(V("not-independent", cname, "mutating the %s (%s) leaves the other object unchanged" % (direction, m),
                                      canon.diff_tags(ref, full_tag(other))))
+            # both objects used (written with the same explicit options) after the copy was taken, then every header
+            # field of one of them edited in place: the other must not notice
+            for wrapopt in (True, False):
+                for direction in ("copy", "orig"):
+                    evals += 1
+                    try:
+                        a = make()
+                        a.write(io.StringIO(), wrap=wrapopt)
+                        b = cp(a)
+                        b.write(io.StringIO(), wrap=wrapopt)
+                    except Exception:
+                        continue
+                    target, other = (b, a) if direction == "copy" else (a, b)
+                    before = full_tag(other)
+                    for secname in ("Version", "Well", "Parameter", "Curves"):
+                        for it in list(target.sections[secname]):
+                            it.unit, it.value, it.descr = "MU", "MUTATED", "MD"
+                    if full_tag(other) != before:
+                        vio.append(V("not-independent-after-writes", cname, "editing every header field of the %s (both written with wrap=%r) "
+                                     "leaves the other object unchanged" % (direction, wrapopt), canon.diff_tags(before, full_tag(other))))
         # sections and items
         orig = make()
         for name, sec in orig.sections.items():
